@@ -28,12 +28,13 @@ func init() {
 		ID:      "C17",
 		Batches: func(tier string) int { return map[string]int{"quick": 16, "thorough": 48}[tier] },
 		Run:     run,
-		Rule: "cases: unique-leaf documents written by the harness with members in a random order (that order is the document order), 1-3 target paths built from child, index, wildcard, union, slice, descent and trailing filter fragments; " +
-			"the callbacks of oj.Match, oj.MatchString, oj.MatchLoad (whole, 1-byte, fixed 2/3/7, every single split point for documents up to 200 bytes) and sen.Match, sen.MatchString, sen.MatchLoad are compared as a sequence of (normalized path, value) with the outermost J locations in document order. " +
+		Rule: "cases: unique-leaf documents written by the harness with members in a random order (that order is the document order), 1-3 target paths of 1-5 fragments built from child, index, wildcard, union, slice, descent (also two descents) and trailing filter fragments; " +
+			"the callbacks of oj.Match, oj.MatchString, oj.MatchLoad (whole, 1-byte, fixed 2/3/7, readers returning their last bytes together with io.EOF, every single split point for documents up to 200 bytes) and sen.Match, sen.MatchString, sen.MatchLoad are compared as a sequence of (normalized path, value) with the outermost J locations in document order. " +
 			"non-trivial: the targets select at least one location; distinct by digest of (document, targets)",
 		Assumptions: []string{
 			"when one selected location lies inside another only the outermost one is delivered (the statement's 'outermost location')",
 			"object members are visited in the order of the text, array elements in index order",
+			"the three findings excuse the callback sequence only (never errors or panics), and not a missing hit of a target without slice, negative index or filter unless that hit lies at or inside an element matched by the part of a filter target before its filter (the matcher collects those elements: F-C17-filter)",
 		},
 		Findings: map[string]func(v *mon.Violation) bool{
 			// the three documented / observed limits of the streaming matcher partition the violations by the
